@@ -164,6 +164,48 @@ func C07_ReopenOlder() {
 	}
 }
 
+var _ = vReg("C07_Overwrite", C07_Overwrite)
+
+// C07_Overwrite: rollback to an earlier version (also an empty one): straight afterwards, after the next
+// commit and after a restart every indexed answer equals the tree walk and the persisted index holds
+// exactly the latest version.
+func C07_Overwrite() {
+	cfg, maxV, maxW := c04cfg("C07_Overwrite")
+	cfg.thresh = []int{0}
+	cfg.fast = []bool{true}
+	cfg.caches = []int{10000, 0}
+	cfg.auditOld = false
+	h := vStartHist(cfg)
+	h.vBuildVersions(maxV, maxW)
+	if h.latest < 2 {
+		vStop()
+	}
+	target := h.first + int64(vChoice("target", int(h.latest-h.first)))
+	err := h.tree.LoadVersionForOverwriting(target)
+	vAssert(err == nil, "c07:overwrite-err")
+	for v := target + 1; v <= h.latest; v++ {
+		delete(h.vers, v)
+		delete(h.refRoots, v)
+		delete(h.refHash, v)
+	}
+	h.latest = target
+	h.resetWorkToLatest()
+	if h.vers[target].size(h.p.n) == 0 {
+		vCover("rollback-to-an-empty-version")
+	}
+	c07Coherent(h, "after-overwrite")
+	c07Raw(h, "after-overwrite")
+	if vChoice("write", 2) == 1 {
+		h.doSet(vChoice("key", h.p.n))
+	}
+	h.doCommit()
+	c07Coherent(h, "after-overwrite-commit")
+	c07Raw(h, "after-overwrite-commit")
+	h.doReopen()
+	c07Coherent(h, "after-overwrite-reopen")
+	c07Raw(h, "after-overwrite-reopen")
+}
+
 // c09Same: the two histories are indistinguishable.
 func c09Same(a, b *vHist, tag string) {
 	vAuditReads(a.tree, a.p, b.work, tag+":reads")
